@@ -20,7 +20,7 @@ def run(tier):
     chk = gwcheck.GwCheck(PID, tier, PROJ, focus=focus, mc_props=PROPS, mc_invs=INVS,
                           mc_depth_quick=6, mc_depth_thorough=8,
                           profile={"fwcfg": 22, "fwreq": 26, "set": 16, "pres": 12, "otherstream": 3, "wake": 5},
-                          nontrivial=_ota_event)
+                          scripts=gwfocus.ota_scripts, nontrivial=_ota_event)
     return chk.run()
 
 
